@@ -125,6 +125,7 @@ class IOWorker (object):
       loop._workers.discard(self)
 
   def _do_send (self, loop):
+    if self.closed: return # (e.g. by the receive step of this very round)
     if self._connecting and self._try_connect(loop): return
     try:
       if len(self.send_buf):
